@@ -585,7 +585,8 @@ theorem disassemble_eq {c : Cls} {cfg : Cfg} (k : ClsF c) (g : CfgF c cfg) (dek 
     rw [rawOf_split, appLen_blocks k g, ← List.length_append, List.take_left]
   simp only [disassemble, k.rDis, hw, ht, disassemblyAppData_eq k g p hr, bind, Except.bind, pure, Except.pure,
     if_true, canon_app cfg dek k]
-  rw [ivtApp, cleanIvt_updateIvt _ _ _ _ _ hge]
+  rw [ivtApp, cleanIvt_updateIvt _ _ _ _ _ hge,
+    align4_of_aligned _ (by rw [cleanIvt_length _ hge]; exact align4_length_mod _)]
   simp only [canon]
 
 
@@ -808,7 +809,8 @@ theorem parse_tz (hl : CryptoLaws co) (k : ClsF c) (g : CfgF c cfg) (sig : Bytes
     have := img_tz hl k g sig
     rw [ht] at this
     simp only [TzCfg.bytes, hd] at this
-    simp only [TzCfg.tag, tzEnabled, tzCustom, tzDisabled, this, tzFromBinary, hd]
+    have hz : ¬ c.tzSize = 0 := by omega
+    simp only [TzCfg.tag, tzEnabled, tzCustom, tzDisabled, this, tzFromBinary, if_neg hz, hd]
     simp [pure, Except.pure, ← hd]
 
 theorem parse_la (k : ClsF c) (g : CfgF c cfg) (sig : Bytes) (dek : Option Bytes) (p : Parsed) (m : MixinName)
